@@ -630,10 +630,20 @@ def cloner_heap_pairing(fb, rep):
                 g_ok = news and all(flow.only_via_edge(f, c.bb, (bb, true_t)) and flow.has_call(flow.sources(f, c.args[1], depth=14), lambda x: x.endswith("Thread::global_env")) for c in news)
                 p_ok = plain and all(flow.only_via_edge(f, c.bb, (bb, false_t)) for c in plain)
                 routed = bool(g_ok and p_ok)
+        # (added after seed C05-4) no way round the copy: every return is preceded by one of the two clones.  A shortcut such as
+        # "the value's owner is the cell's thread, nothing to copy" trusts a parameter the callers fill with the *cell's* thread
+        # even when a descendant thread allocated the value.
+        clone_blocks = [c.bb for c in f.calls() if c.res.endswith("Cloner::<'t>::deep_clone") or c.res.endswith("::deep_clone_value")]
+        rets = {i for i, blk in enumerate(f.blocks) if blk["t"][0] == "ret"}
+        bypass = rets & f.reachable(0, avoid_blocks=clone_blocks)
+        if bypass:
+            rep.violation(R, "cell-clone-bypassed", "Thread::deep_clone_value_for_cell can return without cloning the value (a path from entry to a return passes neither "
+                          "Cloner::deep_clone nor deep_clone_value): the stored value stays in the heap of whichever thread allocated it", f.where())
         if routed:
             rep.ok(R, "deep_clone_value_for_cell: in_global_heap -> Cloner::new(self, global heap); otherwise -> deep_clone_value (owner's heap)")
         else:
             rep.violation(R, "cell-clone-not-routed", "Thread::deep_clone_value_for_cell does not send the value to the global heap exactly when in_global_heap is set", f.where())
+        routed = routed and not bypass
     for root, b, c in foreign:
         if root.endswith(CELL_DCV.split("::", 1)[1]) or root == "gluon_vm::" + CELL_DCV:
             continue
